@@ -380,6 +380,8 @@ func main() {
 		add(3, one, []int{1, 2}, 2)
 		add(2, one, []int{1, 2, 3}, 4)
 		add(2, progsOf(alpha[:3], 2), []int{1}, 3)
+		small := append(append([][]cop{}, progsOf(alpha[:3], 1)...), progsOf(alpha[:3], 2)...)
+		add(3, small, []int{1}, 1)
 	} else {
 		alpha3 := append(append([]cop{}, alpha...), cop{'G', 2}, cop{'R', 1})
 		add(2, append(progsOf(alpha3, 1), progsOf(alpha3, 2)...), []int{1, 2, 3}, 3)
@@ -392,7 +394,7 @@ func main() {
 	}
 	sdrv.Main(run, jobs, sdrv.Options{
 		Budget: budget,
-		Bounds: map[string]any{"threads": "2 (1-2 ops each) and 3 (1 op each)", "capacities": "1..3", "P": "quick: 2 (2 threads x <=2 ops, 3 threads x 1 op), 4 (2 threads x 1 op), 3 (2 threads x 2 ops over {G(a),G(b),R(a)}, capacity 1); thorough: 3"},
+		Bounds: map[string]any{"threads": "2 (1-2 ops each) and 3 (1 op each)", "capacities": "1..3", "P": "quick: 2 (2 threads x <=2 ops, 3 threads x 1 op), 4 (2 threads x 1 op), 3 (2 threads x 2 ops over {G(a),G(b),R(a)}, capacity 1), 1 (3 threads x <=2 ops over {G(a),G(b),R(a)}, capacity 1); thorough: 3"},
 		Rule:   "every program assignment over {GetOrCreate(a), GetOrCreate(b), Remove(a), Clear} (thorough: + GetOrCreate(c), Remove(b)); the create callback is harness code with a scheduling point and a free environment choice {succeeds, fails}; every schedule within the preemption bound with points at the cache mutex, the in-flight channel wait and inside the create callback (thorough: every statement outside the mutex). Oracles: at most one creation per key in progress; the call/return history with returned value, error, created flag and the delete callbacks observed per call is linearizable against a sequential LRU of the same capacity (porcupine); after a final Clear every successfully created value was deleted exactly once; resident values never exceed the capacity; in-flight table and inner list empty at the end",
 	})
 }
